@@ -11,9 +11,19 @@ _loaded = False
 
 
 def _grammar_source():
+    cache = os.environ.get("FENCES_GRAMMAR_CACHE")
+    if cache and os.path.exists(cache) and os.path.getmtime(cache) >= os.path.getmtime(os.path.join(REPO, "bin", "regex.lark")):
+        return open(cache).read()
     out = subprocess.run(
         [sys.executable, "-m", "lark.tools.standalone", os.path.join(REPO, "bin", "regex.lark")],
         check=True, capture_output=True, text=True, env={**os.environ, "PYTHONPATH": ""})
+    if cache:
+        try:
+            with open(cache + ".tmp%d" % os.getpid(), "w") as f:
+                f.write(out.stdout)
+            os.replace(cache + ".tmp%d" % os.getpid(), cache)
+        except OSError:
+            pass
     return out.stdout
 
 
